@@ -24,7 +24,11 @@ SPEC = {'level': 'exploration',
             gen('vh_c30', 'up_feefrac', 200000, 4000000, rule='upstream fuzz target feefrac (arith_uint256 reference), supplementary'),
             gen('vh_c30', 'up_feefrac_div_fallback', 200000, 4000000, rule='upstream fuzz target, supplementary'),
             gen('vh_c30', 'up_feefrac_mul_div', 200000, 4000000, rule='upstream fuzz target, supplementary'),
-            gen('vh_c30', 'up_build_and_compare_feerate_diagram', 60000, 1000000, rule='upstream fuzz target, supplementary')]}
+            gen('vh_c30', 'up_build_and_compare_feerate_diagram', 60000, 1000000, rule='upstream fuzz target, supplementary'),
+        # coverage-guided libFuzzer campaign on the same target (thorough tier only; fz tree = g++ trace-pc + covshim)
+        fuzz('vh_c30', 'c30_feefrac', 300, max_len=96),
+        fuzz('vh_c30', 'c30_diagram', 300, max_len=700),
+    ]}
 
 META = {'level_text': 'Generated search over fee/size pairs, fee*at/size evaluations, raw 96-bit divisions, CFeeRate::GetFee and pairs of feerate diagrams '
                '(millions of cases per quick run; uniform bit lengths and boundary dictionaries so that > 64-bit products, exact ties and +-1 neighbours '
